@@ -717,6 +717,7 @@ class GenUnit:
         self.assumed = []  # (qual, reason)
         self.raw_ranges = []
         self.import_ranges = []
+        self.fn_infra = []
         self.norm_counts = {}
         self.trusted_scan = []
 
@@ -754,7 +755,22 @@ def generate(unit, vacuity=False, only=None):
         elif d.kind == "close":
             emit("}\n")
         elif d.kind == "fn":
-            g = gen_fn(d, strip, "verify", vacuity=vacuity)
+            try:
+                g = gen_fn(d, strip, "verify", vacuity=vacuity)
+            except ExtractError as e:
+                # a lost anchor / dialect escape in ONE function must not take the unit down: the function is
+                # emitted as a stub carrying its contract (so that its callers are still checked against it) and
+                # is reported as undecided
+                c = d.section("contract")
+                try:
+                    g = gen_fn(d, strip, "stub", contract_text=c.text if c else "")
+                except ExtractError:
+                    raise e
+                a = pos
+                emit(g.out + "\n\n")
+                gu.import_ranges.append((a, pos))
+                gu.fn_infra.append({"qual": g.qual, "obligation": unit + "::" + g.qual, "reason": str(e), "file": g.file, "lines": [g.line_start, g.line_end], "sha256": g.sha256})
+                continue
             a = pos
             if d.opt("rlimit"):
                 # a verifier attribute (solver budget), not executable text
